@@ -32,7 +32,8 @@ Import ListNotations.
 Local Open Scope Z_scope.
 
 Inductive op :=
-| OExec      (* queue.execute(item) ; item = (thread, op index) *)
+| OExec      (* queue.execute(T&&)      ; item = (thread, op index) *)
+| OExecL     (* queue.execute(const T&) - the copying overload, same item encoding *)
 | OSignal    (* queue.signal_push_event() *)
 | OJoin.     (* queue.join() *)
 
@@ -43,6 +44,7 @@ Record cell := { cown : nat; cseq : nat; cpub : bool; csig : bool }.
 
 Inductive pc :=
 | Idle
+| PTicket (idx : nat)            (* push<CONCURRENT=false> only: _next_push_index loaded (= idx); next: store(idx + 1) *)
 | PPublish (tk : nat)            (* ticket tk taken; next: publish slot *)
 | PSignal (tk : option nat)      (* pushed; next: _events.fetch_add *)
 | PSubmit (e : Z)                (* start_consumer: next: _executor->submit(...)  (e = local `events`) *)
@@ -92,6 +94,10 @@ Definition finish_op (th : thread) (r : res) : thread :=
 (* result of the execute()/signal_push_event() call the thread is in *)
 Definition call_res (th : thread) (rc : Z) : res :=
   match nth_error (prog th) (opi th) with Some OSignal => RSignal rc | _ => RExec rc end.
+Definition is_exec (o : op) : bool := match o with OExec | OExecL => true | _ => false end.
+(* op i of the thread's program is an execute() call (either overload) *)
+Definition exec_at (th : thread) (i : nat) : bool :=
+  match nth_error (prog th) i with Some o => is_exec o | None => false end.
 
 Definition mark_pub (c : cell) : cell := {| cown := cown c; cseq := cseq c; cpub := true; csig := csig c |}.
 Definition mark_sig (c : cell) : cell := {| cown := cown c; cseq := cseq c; cpub := cpub c; csig := true |}.
@@ -130,19 +136,49 @@ Definition do_signal (s : st) (th : thread) (tk : option nat) : st * thread * li
   if signal_returns_early prev then (s1, finish_op th (call_res th 0), [])
   else (s1, goto th (PSubmit launch_events_init), []).
 
+(* Which ConcurrentBoundedQueue::push the execute() overload of the current op calls: the CONCURRENT template flag
+   is regenerated from both overloads.  true: the ticket is one atomic fetch_add; false: a relaxed load and a
+   separate store(index + 1) - two steps, between which another producer can take the same ticket.  From the first
+   duplicate ticket on the model only aims at exhibiting the failure (lost item / producer stuck for ever), it does
+   not track _next_push_index moving backwards. *)
+Definition push_concurrent_of (th : thread) : bool :=
+  match nth_error (prog th) (opi th) with
+  | Some OExecL => execute_copy_push_concurrent
+  | _ => execute_move_push_concurrent
+  end.
+
+Definition take_ticket (s : st) (t : nat) (th : thread) (concurrent : bool) : option (st * thread * list thread) :=
+  if concurrent then        (* _next_push_index.fetch_add(1) *)
+    Some (set_cells s (cells s ++ [{| cown := t; cseq := opi th; cpub := false; csig := false |}]),
+          goto th (PPublish (length (cells s))), [])
+  else                      (* _next_push_index.load() *)
+    Some (s, goto th (PTicket (length (cells s))), []).
+
 (* (new globals, new own thread, threads created) *)
 Definition step_thread (s : st) (t : nat) (th : thread) : option (st * thread * list thread) :=
   match tpc th with
   | Idle =>
     match nth_error (prog th) (opi th) with
     | None => None
-    | Some OExec =>          (* ticket: _next_push_index.fetch_add(1) *)
-      Some (set_cells s (cells s ++ [{| cown := t; cseq := opi th; cpub := false; csig := false |}]),
-            goto th (PPublish (length (cells s))), [])
+    | Some OExec => take_ticket s t th execute_move_push_concurrent
+    | Some OExecL => take_ticket s t th execute_copy_push_concurrent
     | Some OSignal => Some (do_signal s th None)
     | Some OJoin =>          (* while (_events.load(acquire)) usleep: blocked until the load reads zero *)
       if join_waits (events s) then None else Some (s, finish_op th (RJoin (missing s)), [])
     end
+  | PTicket idx =>           (* _next_push_index.store(idx + 1) of a push<CONCURRENT=false> *)
+    if push_concurrent_of th then None   (* no such program point in an overload that takes its ticket atomically *)
+    else if Nat.eqb idx (length (cells s)) then
+      Some (set_cells s (cells s ++ [{| cown := t; cseq := opi th; cpub := false; csig := false |}]),
+            goto th (PPublish idx), [])
+    else                     (* DUPLICATE TICKET: another push took ticket idx between the load and this store *)
+      match nth_error (cells s) idx with
+      | Some c => if cpub c then None     (* the slot version has moved on: this push waits for it for ever *)
+                  else Some (set_cells s (upd_nth (fun _ => {| cown := t; cseq := opi th; cpub := false; csig := false |})
+                                                  idx (cells s)), goto th (PPublish idx), [])
+                                          (* both write the same slot: the other producer's item is overwritten *)
+      | None => None
+      end
   | PPublish tk =>           (* blocked while slot tk - capacity is not released *)
     if Nat.ltb tk (ndel s + cap s) then Some (set_cells s (upd_nth mark_pub tk (cells s)), goto th (PSignal (Some tk)), [])
     else None
